@@ -1010,12 +1010,13 @@ func main() {
 	bex.Main(&bex.Check{
 		ID:    "C08",
 		Level: "exploration",
-		Rule: "every enumerated pipeline is generated once and evaluated on the real code for every (k, source length, failing call); closure calls are counted per stage by impure host functions and compared with the bounds of the declarative demand model (needed <= calls <= allowed), the result with the eager reference on the needed prefix. distinct_nontrivial = executed cases in which at least one source element has to be evaluated and at least one must stay unevaluated, plus unconsumed pipelines whose later forcing does call closures, plus coop scenarios",
+		Rule: "every enumerated pipeline is generated once (in the generated text every counting call tickN(x) is tickN(g,x): g is the generation of the evaluation, calls of an older generation are ignored) and evaluated on the real code for every (k, source length, failing call); closure calls are counted per stage by impure host functions and compared with the bounds of the declarative demand model (needed <= calls <= allowed), the result with the eager reference on the needed prefix: a failing call inside the needed prefix must surface, one behind it (read-ahead zone included) must not. distinct_nontrivial = executed cases in which at least one source element has to be evaluated and at least one must stay unevaluated, plus unconsumed pipelines whose later forcing does call closures, plus coop scenarios with library goroutines. Coop spaces: evaluations = scenarios, each explored over all interleavings (coop-timed: all that respect the timing assumption)",
 		Assumptions: []string{
-			"read-ahead allowance as in DESIGN.md Appendix B: every stage (and the consumer; multiUse counts as consumer + copy stage) may request one element more than the demand model says; the bounds compose through the transfer functions",
+			"read-ahead allowance as in DESIGN.md Appendix B: every stage (and the consumer; multiUse counts as consumer + copy stage) may request one element more than the demand model says; the bounds compose through the transfer functions. Informational counter source_calls_equal_exact_prediction: with read-ahead only at a completely consumed top(n) and at the copy loop of multiUse the source demand is predicted exactly",
 			"an 'infinite' source is numbers(10^11); its demand is analysed on the first 40 elements, a demand not satisfied there counts as unbounded and the case is excluded (counter infinite_source_cases_without_finite_demand)",
 			"sequential mode on the plain build: an evaluation that took more than 2 ms of wall-clock time (MapAuto could have measured > 200 us per item and started goroutines) is repeated, up to 10 times",
-			"coop part: see C06 (scheduler shim, virtual time); fairness assumption of the bounded variant stated in coop.go",
+			"the eager reference and the transfer functions are the check's own (model.go); the transfer functions are validated against brute-force prefix stability over a family of 32 continuations (space model-validation)",
+			"coop part: scheduler shim and virtual time as in C06. coop-all-schedules makes no timing assumption and asserts no read-ahead bound (none exists: the collector buffers out-of-order results without limit); coop-timed assumes equal closure durations and instantaneous communication (tick1 waits for a virtual timer that fires when nothing else can happen, earliest closure start first) and asserts closure calls <= sequential demand + W, input pulls <= closure calls + 1",
 		},
 		QuickBudget: 60e9, ThoroughBudget: 25 * 60e9,
 		CrashIsViolation: true,
